@@ -1703,6 +1703,10 @@ def main():
     write_if_changed(os.path.join(os.path.dirname(dst), "InternalGen.v"), txt4, ok4)
     import rs2coq_store          # part 3 (policy-store loops) lives in its own module
     rs2coq_store.main(os.path.dirname(dst))
+    import rs2coq_api            # part 5: management / RBAC API helpers -> Gen/ApiGen.v
+    rs2coq_api.main(os.path.join(os.path.dirname(dst), "ApiGen.v"))
+    import rs2coq_cached         # part 6: CachedEnforcer -> Gen/CachedGen.v
+    rs2coq_cached.main(os.path.dirname(dst))
 
 
 if __name__ == "__main__":
